@@ -1921,6 +1921,18 @@ def b_hasattr(I, x, name):
     raise Unsupported("hasattr")
 
 
+_NO_DEFAULT = object()
+
+
+def b_getattr(I, x, name, default=_NO_DEFAULT):
+    """builtin getattr with a constant attribute name (three-argument form: the default when the attribute is missing)"""
+    if not isinstance(name, str):
+        raise Unsupported("getattr with a computed name")
+    if default is not _NO_DEFAULT and isinstance(x, Obj) and not (name in x.fields or x.cls.lookup(name)[1] is not None):
+        return default
+    return getattr_(I, x, name, None)
+
+
 def b_print(I, *a, **k):
     return None
 
@@ -1956,7 +1968,7 @@ BUILTINS = {
     'set': b_set, 'filter': b_filter,
     'len': b_len, 'isinstance': b_isinstance, 'max': b_max, 'min': b_min, 'abs': b_abs, 'float': b_float,
     'int': b_int, 'bool': b_bool, 'range': b_range, 'enumerate': b_enumerate, 'zip': b_zip, 'all': b_all,
-    'any': b_any, 'sum': b_sum, 'tuple': b_tuple, 'list': b_list, 'hasattr': b_hasattr, 'print': b_print,
+    'any': b_any, 'sum': b_sum, 'tuple': b_tuple, 'list': b_list, 'hasattr': b_hasattr, 'getattr': b_getattr, 'print': b_print,
     'str': lambda I, *a: Opaque('str'), 'repr': lambda I, *a: Opaque('str'),
     'ValueError': lambda I, *a, **k: Opaque(('exc', 'ValueError')),
     'float_': b_float,
